@@ -28,7 +28,44 @@ pub enum TAir {
     /// `Sub` that also declares its preprocessed column row-local
     /// (`preprocessed_next_row_columns()` empty): the honest proof carries no `preprocessed_next`.
     SubRl { rows: usize },
+    /// width 2: column `a` and column `lut`, a permutation of `a`; every `a` is looked up in `lut`
+    /// through one local LogUp interaction (batch only: the uni-STARK builders cannot record it).
+    /// In a batch next to lookup-free AIRs the proof's `lookup_terminals` mixes `Some` and `None`.
+    Lk { rows: usize },
 }
+
+/// One AIR enum has to serve builders with and without lookup support (the uni-STARK builders do
+/// not implement `InteractionBuilder`): the lookup is pushed where the builder can record it.
+pub trait KitLookup: AirBuilder {
+    fn kit_local_lookup(&mut self, tuples: Vec<(Vec<Self::Expr>, p3_lookup::Count<Self::Expr>)>);
+}
+macro_rules! kit_lookup_forward {
+    ($([$($g:tt)*] $t:ty),* $(,)?) => {$(
+        impl<$($g)*> KitLookup for $t {
+            fn kit_local_lookup(&mut self, tuples: Vec<(Vec<Self::Expr>, p3_lookup::Count<Self::Expr>)>) {
+                p3_lookup::InteractionBuilder::push_local_interaction(self, tuples);
+            }
+        }
+    )*};
+}
+macro_rules! kit_lookup_noop {
+    ($([$($g:tt)*] $t:ty),* $(,)?) => {$(
+        impl<$($g)*> KitLookup for $t {
+            fn kit_local_lookup(&mut self, _tuples: Vec<(Vec<Self::Expr>, p3_lookup::Count<Self::Expr>)>) {}
+        }
+    )*};
+}
+kit_lookup_forward!(
+    [F: Field, EF: p3_field::ExtensionField<F>] p3_lookup::InteractionSymbolicBuilder<F, EF>,
+    ['a, SC: p3_uni_stark::StarkGenericConfig] p3_lookup::folder::ProverConstraintFolderWithLookups<'a, SC>,
+    ['a, SC: p3_uni_stark::StarkGenericConfig] p3_lookup::folder::VerifierConstraintFolderWithLookups<'a, SC>,
+    ['a, F: Field, EF: p3_field::ExtensionField<F>] p3_air::DebugConstraintBuilder<'a, F, EF>,
+);
+kit_lookup_noop!(
+    [F: Field, EF: p3_field::ExtensionField<F>] p3_air::symbolic::SymbolicAirBuilder<F, EF>,
+    ['a, SC: p3_uni_stark::StarkGenericConfig] p3_uni_stark::ProverConstraintFolder<'a, SC>,
+    ['a, SC: p3_uni_stark::StarkGenericConfig] p3_uni_stark::VerifierConstraintFolder<'a, SC>,
+);
 
 fn lcg(state: &mut u64) -> u64 {
     *state = state.wrapping_mul(6364136223846793005).wrapping_add(1442695040888963407);
@@ -48,6 +85,7 @@ impl TAir {
             TAir::AddRl { rows } => format!("addrl-r{rows}"),
             TAir::Per { rows } => format!("per-r{rows}"),
             TAir::SubRl { rows } => format!("subrl-r{rows}"),
+            TAir::Lk { rows } => format!("lk-r{rows}"),
         }
     }
 
@@ -60,6 +98,7 @@ impl TAir {
             | TAir::Pv { rows }
             | TAir::AddRl { rows }
             | TAir::SubRl { rows }
+            | TAir::Lk { rows }
             | TAir::Per { rows } => *rows,
         }
     }
@@ -137,6 +176,14 @@ impl TAir {
                 let pv = v[0];
                 (RowMajorMatrix::new(v, 2), None, vec![pv])
             }
+            TAir::Lk { rows } => {
+                // a_i = 3 i + 5; lut = the same values rotated by one row
+                let mut v = Vec::with_capacity(rows * 2);
+                for row in 0..rows {
+                    v.extend([V::from_usize(3 * row + 5), V::from_usize(3 * ((row + 1) % rows) + 5)]);
+                }
+                (RowMajorMatrix::new(v, 2), None, vec![])
+            }
             TAir::Per { rows } => {
                 let mut v = Vec::with_capacity(rows * 2);
                 for row in 0..rows {
@@ -165,6 +212,7 @@ impl<V: Field + PrimeField64> BaseAir<V> for TAir {
             TAir::Add { .. } | TAir::AddRl { .. } => 3,
             TAir::Sub { .. } | TAir::SubRl { .. } => 2,
             TAir::Pv { .. } => 2,
+            TAir::Lk { .. } => 2,
             TAir::Per { .. } => 2,
         }
     }
@@ -215,7 +263,7 @@ impl<V: Field + PrimeField64> BaseAir<V> for TAir {
     }
 }
 
-impl<AB: AirBuilder> Air<AB> for TAir
+impl<AB: AirBuilder + KitLookup> Air<AB> for TAir
 where
     AB::F: Field + PrimeField64,
 {
@@ -281,6 +329,18 @@ where
                 let p = builder.preprocessed().clone();
                 let k = p.current_slice()[0];
                 builder.assert_zero(l[0] - k - l[1]);
+            }
+            TAir::Lk { .. } => {
+                let main = builder.main();
+                let l = main.current_slice().to_vec();
+                let n = main.next_slice().to_vec();
+                // keep a real transition constraint so that the AIR opens the next row
+                builder.when_transition().assert_zero(n[0] - l[0] - AB::Expr::from_u8(3));
+                let (a, lut): (AB::Expr, AB::Expr) = (l[0].into(), l[1].into());
+                builder.kit_local_lookup(vec![
+                    (vec![a], p3_lookup::Count::bounded(AB::Expr::ONE, 1)),
+                    (vec![lut], p3_lookup::Count::provided(-AB::Expr::ONE)),
+                ]);
             }
             TAir::Pv { .. } => {
                 let main = builder.main();
